@@ -4,6 +4,10 @@ import LitexModel.Periph.Spi
 import LitexModel.Periph.I2c
 import LitexModel.Periph.I2cMaster
 import LitexModel.Periph.Glue
+import LitexModel.Periph.Bitbang
+import LitexModel.Periph.Bone
+import LitexModel.Periph.Glue2
+import LitexModel.Periph.Link
 import LitexModel.DriverLib
 import LitexModel.Bits
 /-
@@ -36,6 +40,13 @@ import LitexModel.Bits
   open uartsys <tw> <dtx> <drx> <rx_we>
                                 in : rxtx.re rxtx.r rxtx.we ev.rx.clear pads.rx
                                 out: pads.tx rxtx.w txfull txempty rxempty rxfull
+  open bbi2c                    in : w.scl w.oe w.sda ext_scl ext_sda         out: pads.scl pads.sda r.sda
+  open bbi2csim                 in : w.scl w.oe w.sda pads.sda_in             out: pads.scl pads.sda_out r.sda
+  open bbspi <ncs>              in : w.clk w.mosi w.oe w.cs ext_mosi pads.miso
+                                out: pads.clk pads.cs_n pads.mosi r.miso r.mosi
+  open spilink <dw> <aligned> <slave dw>   SPIMaster and SPISlave pad to pad
+                                in : start length mosi cs cs_mode loopback clk_divider slave.miso(word to send)
+                                out: master (pads.clk pads.cs_n pads.mosi done irq miso), slave (pads.miso start length done irq mosi)
   Values are passed unmasked; the models truncate to the widths given by the constructor parameters.
 -/
 namespace Litex.Periph
@@ -210,6 +221,45 @@ def numUartSys (tw dtx drx : Nat) (rxWe : Bool) : NumMachine UartSysSt where
     | _ => none
   key s := toString (repr s)
 
+/-- Stateless cores: a machine with a unit state. -/
+def numComb (f : List Nat → Option (List Nat)) : NumMachine Unit where
+  init := ()
+  step _ ins := (f ins).map fun o => ((), o)
+  key _ := "()"
+
+def numBbI2c : NumMachine Unit := numComb fun ins => match ins with
+  | [scl, oe, sda, escl, esda] =>
+    let o := bbI2c { scl := n2b scl, oe := n2b oe, sda := n2b sda, extScl := n2b escl, extSda := n2b esda }
+    some [b2n o.padScl, b2n o.padSda, b2n o.rSda]
+  | _ => none
+
+def numBbI2cSim : NumMachine Unit := numComb fun ins => match ins with
+  | [scl, oe, sda, sin] =>
+    let o := bbI2cSim (n2b scl) (n2b oe) (n2b sda) (n2b sin)
+    some [b2n o.padScl, b2n o.sdaOut, b2n o.rSda]
+  | _ => none
+
+def numBbSpi (ncs : Nat) : NumMachine Unit := numComb fun ins => match ins with
+  | [clk, mosi, oe, cs, emosi, miso] =>
+    let o := bbSpi ncs { clk := n2b clk, mosi := n2b mosi, oe := n2b oe, cs := cs, extMosi := n2b emosi,
+                         miso := n2b miso }
+    some [b2n o.clk, o.csN, b2n o.mosi, b2n o.rMiso, b2n o.rMosi]
+  | _ => none
+
+def numSpiLink (c : SpiCfg) (dws : Nat) : NumMachine (SpiSt × SlvSt) where
+  init := ((spiMaster c).init, (spiSlave dws).init)
+  step st ins := match ins with
+    | [sta, len, mosi, cs, csm, lb, div, tx] =>
+      let x : SpiIn := { start := n2b sta, length := trunc 8 len, mosi := trunc c.dw mosi, cs := n2b cs,
+                         csMode := n2b csm, loopback := n2b lb, div := trunc 16 div, miso := false }
+      let r := linkStep c dws st.1 st.2 x (trunc dws tx)
+      let o := r.2.1
+      let p := r.2.2
+      some (r.1, [b2n o.clk, b2n o.csN, b2n o.mosi, b2n o.done, b2n o.irq, o.miso,
+                  b2n p.miso, b2n p.start, p.length, b2n p.done, b2n p.irq, p.rx])
+    | _ => none
+  key s := toString (repr s)
+
 def openMachine (args : List String) (hin hout : IO.FS.Stream) : Option (IO Bool) :=
   match args.head?, parseNats args.tail with
   | some "timer", some [w] => some (serve (numTimer w) hin hout)
@@ -229,6 +279,10 @@ def openMachine (args : List String) (hin hout : IO.FS.Stream) : Option (IO Bool
   | some "mcpwm", some [n] => some (serve (numMcPwm n) hin hout)
   | some "uarttop", some [dtx, drx, rw] => some (serve (numUartTop dtx drx (n2b rw)) hin hout)
   | some "uartsys", some [tw, dtx, drx, rw] => some (serve (numUartSys tw dtx drx (n2b rw)) hin hout)
-  | _, _ => none
+  | some "bbi2c", some [] => some (serve numBbI2c hin hout)
+  | some "bbi2csim", some [] => some (serve numBbI2cSim hin hout)
+  | some "bbspi", some [ncs] => some (serve (numBbSpi ncs) hin hout)
+  | some "spilink", some [dw, al, dws] => some (serve (numSpiLink { dw := dw, aligned := n2b al } dws) hin hout)
+  | _, _ => (openBone args hin hout) <|> (openGlue2 args hin hout)
 
 end Litex.Periph
